@@ -1,10 +1,12 @@
 package main
 
 import (
+	"bytes"
 	"encoding/json"
 	"flag"
 	"fmt"
 	"os"
+	"os/exec"
 	"path/filepath"
 	"runtime/debug"
 	"sort"
@@ -88,7 +90,50 @@ func main() {
 		fmt.Fprintf(os.Stderr, "unknown property %q\n", *prop)
 		os.Exit(2)
 	}
+	// The verdict is produced by a child process: a fatal runtime error (stack exhaustion, out of
+	// memory) or a tree that does not load cannot be recovered from inside, and must still end in
+	// a verdict (undecided = the property is not shown to hold), never in a silent crash.
+	if os.Getenv("PFVERIFY_CHILD") == "" {
+		os.Exit(supervise(pd, *tier, vdir))
+	}
 	os.Exit(runProp(pd, *tier, *repo, vdir))
+}
+
+func supervise(pd *propDef, tier, vdir string) int {
+	start := time.Now()
+	exe, err := os.Executable()
+	if err != nil {
+		exe = os.Args[0]
+	}
+	cmd := exec.Command(exe, os.Args[1:]...)
+	cmd.Env = append(os.Environ(), "PFVERIFY_CHILD=1")
+	cmd.Stdout = os.Stdout
+	var errBuf bytes.Buffer
+	cmd.Stderr = &errBuf
+	runErr := cmd.Run()
+	code := 0
+	if runErr != nil {
+		code = -1
+		if ee, ok := runErr.(*exec.ExitError); ok {
+			code = ee.ExitCode()
+		}
+	}
+	tail := errBuf.String()
+	if code == 0 || code == 1 {
+		os.Stderr.WriteString(tail)
+		return code
+	}
+	// keep the head of the diagnostics (a Go crash dump is long)
+	lines := strings.Split(tail, "\n")
+	if len(lines) > 12 {
+		lines = lines[:12]
+	}
+	for _, l := range lines {
+		fmt.Fprintln(os.Stderr, l)
+	}
+	c := newCtx(nil, pd.ID, tier)
+	c.undecided("meta", "analysis-did-not-complete", "-", fmt.Sprintf("the analysis process ended with status %d without a verdict (the tree does not load, or the analyzer crashed); the property is undecided on this tree", code), lines...)
+	return c.finish(vdir, pd.Level, seedFromEnv(), time.Since(start).Seconds(), pd, map[string]interface{}{})
 }
 
 func seedFromEnv() int64 {
